@@ -30,6 +30,9 @@ pub struct Profile {
     /// bias towards slashed (below-peg) states
     pub slash_first: bool,
     pub dust_pct: u32,
+    /// thorough tier, every third run: larger deployment, history several times longer and
+    /// a per-run random reweighting of the operation and environment mix (swarm)
+    pub deep: bool,
 }
 
 pub const N_OPS: usize = 20;
@@ -52,6 +55,7 @@ fn base_profile(name: &'static str) -> Profile {
         admin_chaos: false,
         slash_first: false,
         dust_pct: 12,
+        deep: false,
     }
 }
 
@@ -161,6 +165,11 @@ pub fn gen_cfg(rng: &mut Rng, p: &Profile, fault_free: bool) -> Cfg {
     c.users = rng.range(2, 8) as usize;
     c.chain_validators = rng.range(1, 6) as usize;
     c.registered_validators = rng.range(1, (c.chain_validators as u64).min(5)) as usize;
+    if p.deep {
+        c.users = rng.range(6, 16) as usize;
+        c.chain_validators = rng.range(3, 12) as usize;
+        c.registered_validators = rng.range(2, (c.chain_validators as u64).min(10)) as usize;
+    }
     c.epoch_period = *rng.pick(&[1u64, 5, 30, 3600]);
     c.unbonding_period = match rng.below(4) {
         0 => c.epoch_period + 1,
@@ -266,7 +275,21 @@ impl Gen {
                 *e = rng.chance(1, 2);
             }
         }
-        let target_len = rng.range(p.len.0 as u64, p.len.1 as u64) as u32;
+        let mut target_len = rng.range(p.len.0 as u64, p.len.1 as u64) as u32;
+        let mut p = p;
+        if p.deep {
+            target_len = rng.range(p.len.0 as u64 * 3, p.len.1 as u64 * 4) as u32;
+            for (i, w) in p.w.iter_mut().enumerate() {
+                let f = *rng.pick(&[0u32, 1, 1, 1, 2, 4]);
+                // bonding stays possible in every run
+                *w *= if i <= 1 { f.max(1) } else { f };
+            }
+            for e in p.env.iter_mut() {
+                *e *= *rng.pick(&[0u32, 1, 1, 2, 4]);
+            }
+            p.env_per_block_pct = *rng.pick(&[10u32, 35, 35, 60]);
+            p.tx_fault_pct = *rng.pick(&[0u32, 10, 10, 30]);
+        }
         Gen { rng, p, fault_free, enabled_faults: enabled, delayed: vec![], blocks: 0, target_len, emitted: 0, slashed_once: false, paused_by_gen: false }
     }
 
